@@ -113,6 +113,28 @@ class Oracle:
         return None
 
 
+def narrow(rng, t, inside=False):
+    """Replace one union strictly inside t by one of its members; None if t has no inner union."""
+    k = t[0]
+    if k == "union":
+        if inside and t[1]:
+            return rng.choice(t[1])
+        items = list(t[1])
+        for i in rng.sample(range(len(items)), len(items)):
+            n = narrow(rng, items[i], False)
+            if n is not None:
+                return ("union", tuple(items[:i] + [n] + items[i + 1:]))
+        return None
+    if k in ("inst", "tuple"):
+        items = list(t[2] if k == "inst" else t[1])
+        for i in rng.sample(range(len(items)), len(items)):
+            n = narrow(rng, items[i], True)
+            if n is not None:
+                new = items[:i] + [n] + items[i + 1:]
+                return t_inst(t[1], new) if k == "inst" else t_tuple(new)
+    return None
+
+
 LAWS = {"refl": 1, "any_top": 1, "trans": 3, "union_rule": 2, "dist_sound": 2, "dist_refl": 1}
 
 
@@ -210,6 +232,10 @@ def _work(rng, cl, src, class_names, n_pool, entry):
         for chk in entry.get("triples", []):
             triples.append(tuple(cm.t_from_json(x) for x in chk))
     pool = [cm.gen_type(rng, cl, 0, rng.choice([1, 2, 3, 3])) for _ in range(n_pool)]
+    pool.append(t_tuple([t_union([cm.gen_type(rng, cl, 2, 3), cm.gen_type(rng, cl, 2, 3)]), cm.gen_type(rng, cl, 2, 3)]))
+    some = rng.choice([n for n in cl.universe if cl.hg_of(n) is None])
+    pool.append(t_inst("list", [t_union([t_inst(some), t_inst("int")])]))
+    pool = [t for t in pool if cl.wf(t)]
     for t in pool:
         pairs.append((t, t))
         m = cm.mutate_type(rng, cl, t)
@@ -220,6 +246,15 @@ def _work(rng, cl, src, class_names, n_pool, entry):
         triples.append((r, m, t))
         if rng.random() < 0.5:
             triples.append((t, cm.mutate_type(rng, cl, t), cm.mutate_type(rng, cl, t)))
+    for t in list(pool):
+        # a stricter variant (an inner union narrowed to one member) wrapped in a union as middle type:
+        # t <: (narrow(t) | ..) must not hold just because t MAY be a narrow(t)
+        nt = narrow(rng, t)
+        if nt is not None:
+            mids = [t_union([nt]), t_union([nt, cm.gen_type(rng, cl, 1, 2)])]
+            for m in mids:
+                triples.append((t, m, nt))
+            pairs.append((t, nt))
     for _ in range(n_pool // 2):
         pairs.append((rng.choice(pool), rng.choice(pool)))
     for l, m, r in triples:
@@ -280,6 +315,34 @@ def _work(rng, cl, src, class_names, n_pool, entry):
                               "what": f"is_subclass({a}, {b}) = {got}, issubclass (+ numeric tower) says {exp[(a, b)]}",
                               "replay": {"law": "subclass", "classes_pair": [a, b], "src": src, "classes": class_names}})
     count("class-pairs", len(cq))
+    # the same hierarchy built incrementally (classes registered first, queried while isolated, edges in
+    # random / leaf-last order) must end up answering like Python's issubclass and like a fresh TypeSystem
+    from props._c25_history import plan_to_json, rebuild_plan, run_history, shrink_history
+
+    for _ in range(2 if entry is None else 1):
+        rnames, rp = rebuild_plan(rng, cl)
+        bare = cm.Cluster.bare_from(cl, rnames)
+        hops, _, hfails, _ = run_history(None, bare, None, 0, preset=rp)
+        count("incremental:edges", sum(1 for o in hops if o[0] == "AddEdge"))
+        count("incremental:queries", sum(1 for o in hops if o[0] == "Query"))
+        for sig, what, q in hfails:
+            sig = "incremental:" + sig
+            if sig in seen_sig:
+                count("oracle-repeat:" + sig)
+                continue
+            seen_sig.add(sig)
+            small = shrink_history(lambda: cm.Cluster.bare_from(cl, rnames), rp, sig[len("incremental:"):])
+            fails.append({"signature": sig, "what": what,
+                          "replay": {"law": "incremental", "history": plan_to_json(small), "src": src, "classes": class_names}})
+        for a in cl.universe:
+            for b in cl.universe:
+                got = bare.ts.is_subclass(bare.info[a], bare.info[b])
+                if got != exp[(a, b)] and "incremental:subclass" not in seen_sig:
+                    seen_sig.add("incremental:subclass")
+                    fails.append({"signature": "incremental:subclass:" + ("missing" if exp[(a, b)] else "spurious"),
+                                  "what": f"after building the hierarchy edge by edge with queries in between: is_subclass({a}, {b}) = {got}, "
+                                          f"issubclass (+ numeric tower) says {exp[(a, b)]}",
+                                  "replay": {"law": "incremental", "history": plan_to_json(rp), "src": src, "classes": class_names}})
     # --- the case for Coq -----------------------------------------------------------------
     used = set(cl.universe)
     for a, b in pairs:
@@ -407,6 +470,16 @@ def replay(ctx, path):
 
     cl = cm.Cluster(Path(ctx.mkscratch()), "c25_replay", rp["src"], rp["classes"])
     orc = Oracle(cl)
+    if rp["law"] == "incremental":
+        from props._c25_history import plan_from_json, run_history
+
+        names, _, _ = cl.graph_for(set(cl.universe))
+        bare = cm.Cluster.bare_from(cl, names)
+        ops, answers, fails, _ = run_history(None, bare, None, 0, preset=plan_from_json(rp["history"]))
+        for o, a in zip(ops, answers):
+            print(o, "->", a)
+        print("oracle:", [(f[0], f[1]) for f in fails])
+        return 0
     if rp["law"] == "subclass":
         a, b = rp["classes_pair"]
         print("is_subclass", a, b, cl.ts.is_subclass(cl.info[a], cl.info[b]), "expected", expected_subclass(cl)[(a, b)])
